@@ -12,8 +12,8 @@ one() {
   if ! (cd $S/repo && go build ./... >/dev/null 2>&1); then echo "$N-$x BUILD-FAIL"; rm -rf $S; return; fi
   if ! (cd $S/repo && go test -vet=off -count=1 ./... >/dev/null 2>&1); then echo "$N-$x TESTS-FAIL"; rm -rf $S; return; fi
   fired=""; detail=""
-  for p in $($V/bin/goparcheck -list); do
-    out=$($V/bin/goparcheck -property $p -repo $S/repo -verif $V -evidence-dir $S/ev 2>&1); rc=$?
+  for p in $(${GPC:-$V/bin/goparcheck} -list); do
+    out=$(${GPC:-$V/bin/goparcheck} -property $p -repo $S/repo -verif $V -evidence-dir $S/ev 2>&1); rc=$?
     if [ $rc -ne 0 ]; then fired="$fired $p"; detail="$detail$(echo "$out" | grep -E "^(violated|UNDEC)" | head -2 | cut -c1-300 | sed "s/^/    [$p] /")
 "; fi
   done
@@ -22,5 +22,5 @@ one() {
   echo "$O-$x fired=[${fired# }]"; [ -n "$fired" ] && printf "%s" "$detail"
   rm -rf $S
 }
-export -f one; export V
+export -f one; export V GPC
 ls /tmp/ben/$N/_out/refactor?.patch | xargs -P 5 -I{} bash -c 'one {} '$N' '$O | cat
